@@ -417,6 +417,73 @@ impl Drop for Z {
     }
 }
 
+/// Values of type-erased and other unusual types: what is lent is what was passed, whatever its type.
+fn type_variety_cells(ctx: &vh::explore::Ctx, stats: &mut Stats) {
+    use std::any::Any;
+    type Erased = Box<dyn Any + Send + Sync>;
+    let mut cell = |name: &str, r: Result<Result<(), String>, String>| {
+        stats.add("traces_validated_against_impl", 1);
+        stats.add("transitions", 2);
+        stats.add("type_variety_cells", 1);
+        let r = r.and_then(|r| r);
+        if let Err(what) = r {
+            ctx.violation(
+                &format!("lent-type/{name}"),
+                &format!("lent-type/{name}: {what}"),
+                J::obj().set("type_cell", name),
+            );
+        }
+    };
+    for via_clone in [false, true] {
+        for exclusive in [false, true] {
+            let label = |t: &str| format!("{t}/{}/{}", if via_clone { "clone" } else { "original" }, if exclusive { "make_mut" } else { "make_ref" });
+            macro_rules! lend {
+                ($name:expr, $value:expr, $ty:ty, $check:expr) => {
+                    cell(
+                        &label($name),
+                        catch(|| -> Result<(), String> {
+                            let mut original = Quiet::new(Unimock::new(()));
+                            let mut clone = Quiet::new(original.clone());
+                            let inst: &mut Quiet = if via_clone { &mut clone } else { &mut original };
+                            let first: &$ty = inst.make_ref($value);
+                            let check: fn(&$ty) -> bool = $check;
+                            if !check(first) {
+                                return Err("the reference handed back by make_ref does not read the value that was lent".into());
+                            }
+                            if exclusive {
+                                let second: &mut $ty = inst.make_mut($value);
+                                if !check(second) {
+                                    return Err("the reference handed back by make_mut does not read the value that was lent".into());
+                                }
+                            } else {
+                                let second: &$ty = inst.make_ref($value);
+                                if !check(second) || !check(first) || core::ptr::eq(first, second) {
+                                    return Err("two values lent one after the other are not both intact and distinct".into());
+                                }
+                            }
+                            drop(clone);
+                            drop(original);
+                            Ok(())
+                        }),
+                    );
+                };
+            }
+            lend!("u8", 41u8, u8, |v| *v == 41);
+            lend!("String", "forty-one".to_string(), String, |v| v == "forty-one");
+            lend!("Box<u8>", Box::new(41u8), Box<u8>, |v| **v == 41);
+            lend!("Arc<dyn Any>", std::sync::Arc::new(41u32) as std::sync::Arc<dyn Any + Send + Sync>, std::sync::Arc<dyn Any + Send + Sync>, |v| v.downcast_ref::<u32>() == Some(&41));
+            lend!("Box<dyn Any>", Box::new(41u32) as Erased, Erased, |v| v.downcast_ref::<u32>() == Some(&41));
+            lend!(
+                "Box<dyn Any> holding a Box<dyn Any>",
+                Box::new(Box::new(41u32) as Erased) as Erased,
+                Erased,
+                |v| v.downcast_ref::<Erased>().and_then(|inner| inner.downcast_ref::<u32>()) == Some(&41)
+            );
+            lend!("Option<Box<dyn Any>>", Some(Box::new(41u32) as Erased), Option<Erased>, |v| v.as_ref().and_then(|b| b.downcast_ref::<u32>()) == Some(&41));
+        }
+    }
+}
+
 /// Zero-sized values with drop glue: n0 lent by the original, n1 by a clone, optionally followed by
 /// a `make_mut` on the original; dropped exactly once each, never before teardown (except what the
 /// exclusive operation may release).
@@ -829,6 +896,7 @@ fn main() {
     }
     stats.add("sequential_sequences", stats.get("traces_validated_against_impl"));
     zst_cells(ctx, &mut stats);
+    type_variety_cells(ctx, &mut stats);
     unwind_cells(ctx, &mut stats);
     config_call_cells(ctx, &mut stats);
     // long chains at the stated bound
